@@ -30,7 +30,7 @@ var probeNames = []string{
 	"entry_stream_rtp", "entry_stream_rtcp", "entry_session_rtp", "entry_session_rtcp", "entry_client_rtp", "entry_client_rtcp",
 	"secure", "secure_mki", "udp", "interleaved", "size_exactly_at_limit", "size_one_over_limit", "oversize_rejected",
 	"within_limit_accepted", "accepted_seen_on_wire", "queue_full", "auto_rtcp_on_wire", "compound_rtcp", "largest_unit_equals_max",
-	"start_rejected_max_packet_size", "start_rejected_write_queue", "start_accepted",
+	"start_rejected_max_packet_size", "start_rejected_write_queue", "start_accepted", "multicast_reader",
 }
 
 // ---- observation of what leaves the library endpoints --------------------------------
@@ -130,8 +130,8 @@ func (o *observer) netTap(ev simnet.TapEvent) {
 	}
 	u := &unit{origin: ev.Node, peer: to.String(), n: len(ev.Data), data: ev.Data}
 	switch {
-	case from.Port == 8000 || to.Port == 8000:
-	case from.Port == 8001 || to.Port == 8001:
+	case from.Port == 8000 || to.Port == 8000 || to.Port == 8002: // 8002 / 8003: the multicast groups' ports
+	case from.Port == 8001 || to.Port == 8001 || to.Port == 8003:
 		u.rtcp = true
 	default:
 		o.w.Fail("harness/unknown-udp datagram", "UDP datagram %v -> %v is neither RTP nor RTCP of the server", from, to)
@@ -218,8 +218,11 @@ func us(n int) time.Duration { return time.Duration(n) * time.Microsecond }
 
 func protoOf(tr string) *gortsplib.Protocol {
 	p := gortsplib.ProtocolTCP
-	if tr == "udp" {
+	switch tr {
+	case "udp":
 		p = gortsplib.ProtocolUDP
+	case "mcast":
+		p = gortsplib.ProtocolUDPMulticast
 	}
 	return &p
 }
@@ -348,6 +351,12 @@ func drive(w *sys.World, sc *Scenario, ob *observer, results []wres) {
 		MaxPacketSize:  sc.SrvMax,
 		Handler:        h,
 	}
+	for _, p := range sc.Readers {
+		if p.Transport == "mcast" {
+			srv.MulticastIPRange, srv.MulticastRTPPort, srv.MulticastRTCPPort = "224.1.0.0/16", 8002, 8003
+			w.Probe("multicast_reader")
+		}
+	}
 	scheme := "rtsp"
 	if sc.Secure {
 		srv.TLSConfig = sys.ServerTLSConfig()
@@ -393,6 +402,9 @@ func drive(w *sys.World, sc *Scenario, ob *observer, results []wres) {
 	for i, p := range sc.Readers {
 		name := fmt.Sprintf("reader%d", i)
 		ip := fmt.Sprintf("10.0.0.%d", 20+i)
+		if p.Transport == "mcast" {
+			ip = "127.0.0.1" // the client looks for a real interface with its local address (net.Interfaces)
+		}
 		c := newClient(w, sc, ob, name, ip, p, scheme)
 		if err := c.Start(); err != nil {
 			w.Fail("c18/api-error reader", "reader %d Start (MaxPacketSize %d): %v", i, p.Max, err)
@@ -842,7 +854,7 @@ func init() {
 		"ServerSession.WritePacketRTP towards a recording client (not a supported direction: the session has no RTP sender)",
 		"Client.WritePacketRTP on an ONVIF back channel of a playing client (same code path as the recording client)",
 	}
-	f.Rule = "scenario = Server.MaxPacketSize x per-client MaxPacketSize (0 = default 1472, or 32..1472) x plain | rtsps+SRTP (optionally with client-managed keys + 4-byte MKI) x 1..2 playing readers (udp | interleaved tcp) x optional recording client (udp | tcp) x automatic RTCP reports off | period 0.3-3 ms x 6..24 writes, each through one entry point (ServerStream, ServerSession of a reader, ServerSession of the recording client (RTCP), recording Client, playing Client (RTCP)) with an RTP packet (12 + CSRC 0..15 + RFC 3550 / RFC 8285 extension + payload + padding) or an RTCP packet (SR, RR, SDES, APP, raw, compound SR+SDES+APP) whose size is swept around the limit (limit-2..limit+2, +-3..8, around max without overhead, random below, random above, far above) x 0..3 Start() configurations (MaxPacketSize > 1472, WriteQueueSize not a power of two, valid) x latency / chunking / UDP faults; non-trivial = at least one oversize write rejected and at least one within-limit write observed on the wire (or, for runs without writes, a Start() configuration rejected); distinct = distinct hash of the canonical event log (writes with sizes, results and unit counts)"
+	f.Rule = "scenario = Server.MaxPacketSize x per-client MaxPacketSize (0 = default 1472, or 32..1472) x plain | rtsps+SRTP (optionally with client-managed keys + 4-byte MKI) x 1..2 playing readers (udp | interleaved tcp; 12%: one of them over UDP-multicast, i.e. the multicast writer with its own size checks and reports) x optional recording client (udp | tcp) x automatic RTCP reports off | period 0.3-3 ms x 6..24 writes, each through one entry point (ServerStream, ServerSession of a reader, ServerSession of the recording client (RTCP), recording Client, playing Client (RTCP)) with an RTP packet (12 + CSRC 0..15 + RFC 3550 / RFC 8285 extension + payload + padding) or an RTCP packet (SR, RR, SDES, APP, raw, compound SR+SDES+APP) whose size is swept around the limit (limit-2..limit+2, +-3..8, around max without overhead, random below, random above, far above) x 0..3 Start() configurations (MaxPacketSize > 1472, WriteQueueSize not a power of two, valid) x latency / chunking / UDP faults; non-trivial = at least one oversize write rejected and at least one within-limit write observed on the wire (or, for runs without writes, a Start() configuration rejected); distinct = distinct hash of the canonical event log (writes with sizes, results and unit counts)"
 	f.Assumptions = []string{
 		"the size that counts is the UDP datagram length / the payload length announced in the interleaved frame header, compared with the configured maximum of the endpoint the unit leaves from (server: Server.MaxPacketSize, client: Client.MaxPacketSize, 1472 when 0)",
 		"'would exceed' = marshalled size + SRTP overhead of the negotiated profile AES_CM_128_HMAC_SHA1_80 (RFC 3711: 10-byte tag for SRTP, tag + 4-byte index for SRTCP, + 4-byte MKI when the client uses client-managed keys); the model is cross-checked against accepted packets on the wire (harness/overhead-model)",
